@@ -1134,6 +1134,12 @@ class Frame:
                 for (kk, _vk, vv) in base.val:
                     if kk == vkey(idx):
                         return vv
+                if isinstance(idx, G):
+                    # a table keyed by True / False, indexed by a condition: one entry per truth value
+                    t_ = [vv for (kk, _vk, vv) in base.val if kk == TRUE.key]
+                    f_ = [vv for (kk, _vk, vv) in base.val if kk == FALSE.key]
+                    if len(t_) == 1 and len(f_) == 1:
+                        return mk_pw([(idx, t_[0]), (g_not(idx), f_[0])])
                 return Obj("dictitem", (base.key, vkey(idx)))
             idx = self.expr(sl, env)
             return anf.opaque("item", ev.to_rat(base), ev.to_rat(idx) if not isinstance(idx, Obj) else anf.opaque("obj", extra=repr(idx.key)))
